@@ -6,6 +6,7 @@ Case lines (see lean/ArvVerif/Driver/C18.lean for the protocol):
   get <cid> <req> <fwd> <local> <remotes> <order>   Conn.CollectionGet with scripted backends (fed)
   legacy <id> <expect> <field> <mt>  rewriteSignatures on a 200 record                (driver leg)
   legacyraw reqerr|badjson|status:N  rewriteSignatures pass-through branches          (driver leg)
+  lfetch <req> <local> <remotes> <order>   fetchRemoteCollectionByPDH with scripted HTTP peers (driver leg)
 """
 import hashlib
 import itertools
@@ -25,8 +26,10 @@ ASSUMPTIONS = [
     "remote ids are distinct non-empty strings without ' ', '=', ';', ','",
     "the completion order of the remotes' CollectionGet calls is the scripted release order: the driver "
     "releases one stub at a time and waits until the controller has digested the answer",
-    "fetchRemoteCollectionByPDH (legacy fan-out) is modelled and proved about in Lean and tied by source "
-    "facts only; the differential check drives rewriteSignatures, which the fan-out calls per remote",
+    "fetchRemoteCollectionByPDH (legacy delegate) is driven with a scripted http.RoundTripper in place of the "
+    "local Rails API and the remote clusters; MaxRequestAmplification is unlimited; a hanging peer answers its "
+    "cancellation only after the delegate returned, so the errors counted at a client cancel are those "
+    "delivered before it; requested ids have one hash+size group (collectionsByPDHRe allows repetitions)",
 ]
 TRUSTED = ["executable MD5 in Lean (ArvVerif/Base/MD5.lean), compared with Go crypto/md5 through every pdh/get/legacy case",
            "stub backends and the release/wait protocol of zz_verif_c18_test.go",
@@ -43,7 +46,7 @@ ALNUM = "abcdefghijklmnopqrstuvwxyz0123456789"
 
 
 def channel(case):
-    return "leg" if case.startswith("legacy") else "fed"
+    return "leg" if case.startswith(("legacy", "lfetch")) else "fed"
 
 
 # ----------------------------------------------------------------------------- encoding helpers
@@ -429,6 +432,72 @@ def _legacy_cases(rng, n):
     return cases
 
 
+def _lreply(kind, rid, n, field=None, mt=None):
+    if kind in ("H", "X"):
+        return kind
+    if kind.startswith("S"):
+        return "S:" + kind[1:]
+    return f"R:{hx(_coll_uuid(rid, n))}:{hx(field)}:{hx(mt)}"
+
+
+def _lfetch_cases(rng, tier, n_scen):
+    """legacy delegate: local {404, 200 record, other status, transport error, hang}; 0-4 remotes answering
+    {valid signed record, record the legacy path refuses, tampered record, wrong field, 404, 5xx, transport
+    error, hang}; every order of <= 3 (thorough 4) answering remotes"""
+    cases = []
+    maxperm = 3 if tier == "quick" else 4
+    for sc in range(n_scen):
+        odd = rng.random() < 0.25
+        streams = _structure(rng, odd)
+        if rng.random() < 0.7:
+            streams = [(nm, [(h, s, []) for h, s, _ in locs], fs) for nm, locs, fs in streams]
+        base = _unsigned(streams)
+        pdh = spec_pdh(base)
+        h, sz = pdh.split("+")
+        req = rng.choice([pdh] * 20 + [pdh + "0", h[:31] + ("0" if h[31] != "0" else "1") + "+" + sz, h.upper() + "+" + sz,
+                                      pdh + "+K@zzzzz", h, "x" + pdh[1:], pdh + "+"])
+        nrem = rng.choice([0, 1, 1, 2, 2, 3, 3, 4])
+        rids = []
+        while len(rids) < nrem:
+            r = _cluster(rng)
+            if r not in rids and r != "zhome":
+                rids.append(r)
+        weights = rng.choice([
+            ["good", "good", "tamper", "S404", "S503", "H", "X"],
+            ["good", "tamper", "tamper", "field", "refused", "S404", "S404", "S500", "H", "X"],
+            ["tamper", "S404", "S404", "H"],
+            ["S404"],
+            ["good"],
+        ])
+        kinds = [rng.choice(weights) for _ in rids]
+
+        def mk(kind, rid, n):
+            if kind == "good":
+                return _lreply("R", rid, n, pdh, _render(rng, streams, rng.choice(["all", "all", "some"]), odd))
+            if kind == "refused":      # honest by the published PDH, but the legacy path hashes unsigned hints
+                st2 = [(nm, [(hh, ss, [_plain_hint(rng)]) for hh, ss, _ in locs], fs) for nm, locs, fs in streams]
+                return _lreply("R", rid, n, pdh, _render(rng, st2, "none", odd))
+            if kind == "tamper":
+                t, _ = _tamper(rng, _render(rng, streams, rng.choice(["all", "none"]), odd))
+                return _lreply("R", rid, n, rng.choice([pdh, pdh, spec_pdh(t)]), t)
+            if kind == "field":
+                return _lreply("R", rid, n, "0" * 32 + "+0", _render(rng, streams, "all", odd))
+            return _lreply(kind, rid, n)
+
+        lk = rng.choice(["S404"] * 14 + ["good", "tamper", "S500", "S401", "X", "H"])
+        local = mk(lk, "zhome", 0)
+        rem = [(r, mk(k, r, i + 1)) for i, (r, k) in enumerate(zip(rids, kinds))]
+        live = [r for r, k in zip(rids, kinds) if k != "H"]
+        if len(live) <= maxperm:
+            orders = list(itertools.permutations(live))
+        else:
+            orders = [tuple(rng.sample(live, len(live))) for _ in range(4)]
+        rems = ";".join(f"{r}={a}" for r, a in rem) or "-"
+        for o in orders:
+            cases.append(f"lfetch {hx(req)} {local} {rems} {','.join(o) or '-'}")
+    return cases
+
+
 def generate(rng, tier):
     quick = tier == "quick"
     cases = []
@@ -439,12 +508,41 @@ def generate(rng, tier):
         cases.append(f"rw {hx(cid)} {hx(mt)}")
         cases.append(f"pdh {hx(mt)}")
     cases += _legacy_cases(rng, 500 if quick else 8000)
+    cases += _lfetch_cases(rng, tier, 250 if quick else 4000)
     return cases
 
 
 # ----------------------------------------------------------------------------- comparison / oracle
 
+def _parse_lfetch(case):
+    f = case.split(" ")
+
+    def rep(a):
+        if a in ("H", "X"):
+            return (a,)
+        p = a.split(":")
+        if p[0] == "S":
+            return ("S", int(p[1]))
+        return ("R", unhx(p[1]), unhx(p[2]), unhx(p[3]))   # uuid, portable_data_hash field, manifest
+
+    rem = [] if f[3] == "-" else [(e.split("=", 1)[0], rep(e.split("=", 1)[1])) for e in f[3].split(";")]
+    order = [] if f[4] == "-" else f[4].split(",")
+    return unhx(f[1]), rep(f[2]), rem, order
+
+
 def compare(case, impl, model):
+    if case.startswith("lfetch "):
+        g = impl.split(" ")
+        if g and g[-1].startswith("src="):
+            impl = " ".join(g[:-1])
+        if impl != model and "cc=1" in model and model.startswith("err "):
+            # a transport error leaves no trace the driver could wait for before it cancels: when such
+            # an answer meets a hanging remote, the error may or may not have been counted (404 / 502)
+            req, local, rem, order = _parse_lfetch(case)
+            amap = dict(rem)
+            if any(amap[r][0] == "X" for r in order):
+                return impl in (model.replace("err 502", "err 404"), model.replace("err 404", "err 502"))
+        return impl == model
     return impl == model
 
 
@@ -528,11 +626,65 @@ def oracle(case, impl):
                 return "unexpected error class " + impl[:200]
             return None
         return "unrecognised result " + impl[:100]
+    if f[0] == "lfetch":
+        req, local, rem, order = _parse_lfetch(case)
+        g = impl.split(" ")
+        if "leak=1" in g:
+            return "a request to a backend was still outstanding after the legacy delegate returned"
+        if g[0] in ("queried-unlisted-host", "unhandled-but-active", "local-status-not-forwarded-verbatim", "undecodable-output"):
+            return "legacy delegate misbehaves: " + impl
+        if g[0] == "ok":
+            out = unhx(g[1])
+            src_uuid = unhx(g[-1][4:]) if g[-1].startswith("src=") else None
+            src = [(rid, a) for rid, a in rem if a[0] == "R" and a[1] == src_uuid]
+            if not src:
+                return "legacy delegate returned a collection that no remote sent"
+            rid, a = src[0]
+            if spec_pdh(a[3]) != req:
+                return (f"legacy delegate handed over a collection although the manifest received from remote {rid} "
+                        f"hashes to {spec_pdh(a[3])}, not to the requested {req}")
+            why = only_sig_diff(a[3], out, rid)
+            if why:
+                return f"legacy delegate: relayed manifest differs from what remote {rid} sent in more than +A -> +R{rid}-: " + why
+            return None
+        if g[0] == "local":
+            if local[0] != "R" or unhx(g[1]) != local[3]:
+                return "legacy delegate altered the local cluster's answer"
+            return None
+        if g[0] == "err":
+            if local == ("S", 404):
+                amap = dict(rem)
+                honest = [r for r in order if amap[r][0] == "R" and _legacy_plain_honest(req, amap[r])]
+                if honest:
+                    return f"remote {honest[0]} answered with a plainly valid signed record for the requested hash, but the legacy delegate failed ({impl})"
+            return None
+        if g[0] in ("unhandled", "localstatus"):
+            return None
+        return "unrecognised result " + impl[:100]
     if f[0] == "legacyraw":
         ok = {"reqerr": "reqerr", "badjson": "err json"}
         want = ok.get(f[1]) or ("pass " + f[1].split(":")[1])
         return None if impl == want else f"legacy pass-through branch misbehaves: {impl}"
     return None
+
+
+BARE_LOC = re.compile(r"[0-9a-f]{32}\+[0-9]+\Z")
+
+
+def _legacy_plain_honest(req, rec):
+    """a record every reading of the format accepts: field and published PDH equal the request, LF line
+    ends, >= 3 tokens per line, every block token a canonical signed locator or bare hash+size"""
+    _, _uuid, field, mt = rec
+    if field != req or spec_pdh(mt) != req or not mt.endswith("\n") or "\r" in mt:
+        return False
+    for line in mt[:-1].split("\n"):
+        toks = line.split(" ")
+        if len(toks) < 3:
+            return False
+        for t in toks[1:]:
+            if BLOCKISH.match(t) and not (CANON_SIGNED.match(t) or BARE_LOC.match(t)):
+                return False
+    return True
 
 
 def finding_of(case, impl, why):
@@ -570,6 +722,18 @@ def finding_of(case, impl, why):
         if honest and all(_glued(a[2]) and not go_ok(a[2]) for a in honest):
             return "F18b"
         return None
+    if f[0] == "lfetch" and impl.startswith("ok "):
+        req, local, rem, order = _parse_lfetch(case)
+        g = impl.split(" ")
+        out = unhx(g[1])
+        src_uuid = unhx(g[-1][4:]) if g[-1].startswith("src=") else None
+        src = [(rid, a) for rid, a in rem if a[0] == "R" and a[1] == src_uuid]
+        if src:
+            rid, a = src[0]
+            norm = _scanlines_norm(a[3])
+            if norm != a[3] and spec_pdh(norm) == req and only_sig_diff(norm, out, rid) is None:
+                return "F18c"
+        return None
     if f[0] == "legacy" and impl.startswith("ok "):
         rid, expect, field, mt = unhx(f[1]), unhx(f[2]), unhx(f[3]), unhx(f[4])
         out = unhx(impl.split(" ")[1])
@@ -597,6 +761,8 @@ def nontrivial_key(case, impl):
         return case if len(f[-1]) > 66 else None
     if f[0] == "legacy":
         return case if len(f[-1]) > 66 else None
+    if f[0] == "lfetch":
+        return case if "R:" in case else None
     return None
 
 
@@ -604,7 +770,8 @@ def describe(cases, impl):
     d = {"ops": {}, "get_results": {}, "get_remotes": {}, "get_request": {"by_uuid": 0, "by_pdh": 0},
          "get_answers": {"match": 0, "mismatch": 0, "E404": 0, "E5xx": 0, "E4xx_other": 0, "hang": 0},
          "get_client_cancel": 0, "get_fanout": 0, "get_winner_not_first_in_order": 0,
-         "legacy_results": {}, "rw_changed": 0}
+         "legacy_results": {}, "rw_changed": 0, "lfetch_results": {}, "lfetch_client_cancel": 0,
+         "lfetch_winner_not_first_in_order": 0}
     for c, r in zip(cases, impl):
         f = c.split(" ")
         d["ops"][f[0]] = d["ops"].get(f[0], 0) + 1
@@ -636,6 +803,16 @@ def describe(cases, impl):
             d["legacy_results"][k] = d["legacy_results"].get(k, 0) + 1
         elif f[0] == "rw":
             d["rw_changed"] += r != f[2]
+        elif f[0] == "lfetch":
+            g = r.split(" ")
+            k = g[0] + ((" " + g[1]) if g[0] in ("err", "localstatus") else "")
+            d["lfetch_results"][k] = d["lfetch_results"].get(k, 0) + 1
+            d["lfetch_client_cancel"] += "cc=1" in g
+            if g[0] == "ok":
+                req, local, rem, order = _parse_lfetch(c)
+                amap = dict(rem)
+                if order and (amap[order[0]][0] != "R" or hx(amap[order[0]][1]) != g[-1][4:]):
+                    d["lfetch_winner_not_first_in_order"] += 1
     return d
 
 
@@ -671,4 +848,16 @@ def neighbours(case, rng):
         for _ in range(4):
             t, _ = _tamper(rng, mt)
             out.append(" ".join(f[:4] + [hx(t)]))
+    elif f[0] == "lfetch":
+        req, local, rem, order = _parse_lfetch(case)
+        for _ in range(3):
+            o = list(order)
+            rng.shuffle(o)
+            out.append(" ".join(f[:4] + [",".join(o) or "-"]))
+        for i, (rid, a) in enumerate(rem):
+            if a[0] == "R":
+                t, _ = _tamper(rng, a[3])
+                ents = f[3].split(";")
+                ents[i] = f"{rid}=R:{hx(a[1])}:{hx(a[2])}:{hx(t)}"
+                out.append(" ".join(f[:3] + [";".join(ents), f[4]]))
     return out
